@@ -337,6 +337,9 @@ example : (toPattern false (.binop (.name "a") .add (.name "b") false)).isNone =
 example : (toPattern false (.attr (.name "_") "x")).isNone = true := by decide
 example : (toPattern false (.dict [.kv (.binop (.name "a") .bitor (.name "b") false) (.name "c")])).isNone = true := by
   decide
+-- `{...: c}`: an Ellipsis key is refused (repair C19-F3), `{None: c}` is not
+example : (toPattern true (.dict [.kv (.const .ellipsis) (.name "c")])).isNone = true := by decide
+example : (toPattern true (.dict [.kv (.const .none) (.name "c")])).isSome = true := by decide
 -- `p as n` does not convert; `[a, *_]` converts to `[a, *_]`
 example : (toExpr false (.asPat (.capture (some "a")) (some "n"))).isNone = true := by decide
 example : toExpr true (.seq .brackets [.capture (some "a"), .star none])
